@@ -286,7 +286,7 @@ def check_siblings(ctx, out):
 
 
 def check_scan(ctx, out, rule="C02.scan"):
-    main = ctx.facts.bodies.get("bwbin::main")
+    main = ctx.main_view()
     if main is None:
         out.inst(rule, 0, 3)
         return
